@@ -170,3 +170,63 @@ def expected_update(ctx, params, D):
             k += len(vs)
             out[nm] = [a + b for a, b in zip(vs, sl)]
     return out
+
+
+def concrete_instance(kind, env):
+    """the model program of `kind` as an ordinary concrete module whose parameters and inputs carry the values of a solver model
+    (names as created by make_model; missing names keep the seeded values).  Returns (module, params, p, y)."""
+    from symx.engine import Ctx, SymMode
+    ctx = Ctx()
+    with SymMode(ctx) as m1:
+        mod, params, p, y, ps, ys, info = make_model(kind, m1)
+
+    def fill(ten, vs, group=None):
+        cur = ten.detach().reshape(-1).tolist()
+        vals = torch.tensor([float(env.get(str(v), c)) for v, c in zip(vs, cur)], dtype=ten.dtype)
+        if group is not None:
+            vals = normalize_group(group, vals)
+        with torch.no_grad():
+            ten.copy_(vals.view(ten.shape))
+    for nm, k_, g, vs, ten in params:
+        fill(ten.data, vs, g if k_ == 'group' else None)
+    fill(p, ps)
+    if y is not None and ys is not None:
+        fill(y, ys)
+    return mod, params, p, y
+
+
+def fd_residual_jacobian(mod, params, p, y, h=1e-6):
+    """residual vector and its Jacobian in tangent coordinates by central differences (replay only: confirms solver candidates)"""
+    before = {nm: ten.data.clone() for nm, k_, g, vs, ten in params}
+
+    def resid():
+        with torch.no_grad():
+            out = mod(p)
+        outs = out if isinstance(out, (tuple, list)) else (out,)
+        rs = []
+        for i, o in enumerate(outs):
+            o = o.tensor() if isinstance(o, pp.LieTensor) else o
+            rs.append((o - y if (y is not None and i == 0) else o).reshape(-1))
+        return torch.cat(rs)
+    cols = []
+    with torch.no_grad():
+        for nm, k_, g, vs, ten in params:
+            if k_ == 'frozen':
+                continue
+            n = ADIM[g] if k_ == 'group' else ten.numel()
+            for j in range(n):
+                d = torch.zeros(n, dtype=DT)
+                d[j] = h
+                vals = []
+                for sgn in (1, -1):
+                    if k_ == 'group':
+                        ten.data.copy_((pp.LieTensor(sgn * d, ltype=ATYPE[g]).Exp() @ pp.LieTensor(before[nm], ltype=GTYPE[g])).tensor())
+                    else:
+                        ten.data.copy_(before[nm] + sgn * d.view(before[nm].shape))
+                    vals.append(resid())
+                ten.data.copy_(before[nm])
+                cols.append((vals[0] - vals[1]) / (2 * h))
+            if k_ == 'group':
+                for _ in range(GDIM[g] - ADIM[g]):
+                    cols.append(torch.zeros_like(cols[-1]))
+    return resid(), torch.stack(cols, 1)
